@@ -28,6 +28,9 @@ SCP = dict(sver=0, read=2, write=3, fill=5, link_read=17, link_write=18, nnp=20,
            iptag=26, alloc_free=28, router=29, info=31, bmp_info=48, power=57)
 SIG_STOP = 2
 ERRS = {1: "TypeError", 2: "ValueError", 3: "AssertionError"}
+INTERRUPTS = ("KeyboardInterrupt", "SystemExit", "HarnessInterrupt")     # model error 6
+
+DEFAULT_INITIAL = {"mc_initial": [["app_id", 66]], "bmp_initial": [["cabinet", 0], ["frame", 0], ["board", 0]]}
 
 # names whose values are plain integers / booleans for every method that has them: these may be supplied
 # by a context block
@@ -295,20 +298,48 @@ class Gen(object):
                 ops.append(["with", kw, inner, var])
             elif u < 0.83 and cls == "MC":
                 ops.append(self.app(cls, methods, ctl, inforce, depth, active))
-            elif u < 0.88 and not noupdate:
+            elif u < 0.86:
+                # a block whose exit callback raises
+                nm = r.choice(CTX_NAMES[cls][:5])
+                kw = [[nm, self.value(cls, "__call__", nm, ctl)]]
+                exc = r.choice(["Exception"] + list(INTERRUPTS))
+                self.shapes.append(("__context__", ["exit-callback-raises-" + ("Exception" if exc == "Exception" else "BaseException")]))
+                op = ["withcb", kw, self.block(cls, methods, ctl, inforce | {nm}, depth + 1, active), exc]
+                ops.append(self.caught(cls, op, methods, ctl, inforce))
+            elif u < 0.89 and not noupdate:
                 nm = r.choice(CTX_NAMES[cls])
                 ops.append(["update", [[nm, self.value(cls, "__call__", nm, ctl)]]])
                 inforce = inforce | {nm}
-            elif u < 0.91:
+            elif u < 0.92:
                 ops.append(["raise"])
             else:
                 ops.append(["try", self.block(cls, methods, ctl, inforce, depth + 1, active, noupdate)])
         return ops
 
     def app(self, cls, methods, ctl, inforce, depth, active=()):
+        r = self.rng
         pos, kw, shape = self.call(cls, "application", ctl, inforce)
         self.shapes.append(("application", shape))
-        return ["app", pos, kw, self.block(cls, methods, ctl, inforce | {"app_id"}, depth + 1, active)]
+        intr = r.choice(INTERRUPTS) if r.random() < 0.3 else None
+        op = ["app", pos, kw, self.block(cls, methods, ctl, inforce | {"app_id"}, depth + 1, active), intr]
+        if intr:
+            self.shapes.append(("__context__", ["stop-command-interrupted"]))
+            return self.caught(cls, op, methods, ctl, inforce)
+        return op
+
+    def caught(self, cls, op, methods, ctl, inforce):
+        """mostly: try: <op> except: pass, then a command at this level"""
+        r = self.rng
+        if r.random() < 0.25:
+            return op
+        ops = [["try", [op]]]
+        if methods and r.random() < 0.8:
+            m = methods.pop()
+            if m != "application":
+                pos, kw, shape = self.call(cls, m, ctl, inforce)
+                ops.append(["call", m, pos, kw, False])
+                self.shapes.append((m, shape))
+        return ["try", ops]
 
     def argnames(self, cls, m):
         sg = self.sigs[cls][m]
@@ -329,7 +360,8 @@ class Gen(object):
         u = r.random()
         if u < 0.55:
             init = None
-            inforce = set(k for k, _ in self.info["mc_initial" if cls == "MC" else "bmp_initial"])
+            key = "mc_initial" if cls == "MC" else "bmp_initial"
+            inforce = set(k for k, _ in (self.info[key] if self.info.get(key) is not None else DEFAULT_INITIAL[key]))
         elif u < 0.75:
             init, inforce = [], set()
         else:
@@ -425,7 +457,10 @@ def cop(op):
     if k == "with":
         return "OWith %s %s" % (ckw(op[1]), cops(op[2]))
     if k == "app":
-        return "OApp %s %s %s" % (vlist(cval(v) for v in op[1]), ckw(op[2]), cops(op[3]))
+        return "OApp %s %s %s %s" % (vlist(cval(v) for v in op[1]), ckw(op[2]), cops(op[3]),
+                                     "true" if len(op) > 4 and op[4] else "false")
+    if k == "withcb":
+        return "OWithCb %s %s" % (ckw(op[1]), cops(op[2]))
     if k == "update":
         return "OUpdate %s" % ckw(op[1])
     if k == "raise":
@@ -497,7 +532,10 @@ def outcome_agrees(model, trace, exc):
     for k, (w, e) in enumerate(zip(wires, trace)):
         if not entry_matches(w, e):
             return "command %d differs" % k
-    if err != 0 and ERRS.get(err) != exc:
+    if err == 6:
+        if exc not in INTERRUPTS:
+            return "model: the interrupt raised by the connection travels outward"
+    elif err != 0 and ERRS.get(err) != exc:
         return "model: %s after %d command(s)" % (ERRS.get(err, "error %d" % err), len(wires))
     if err == 0 and exc is not None:
         return "model: no exception"
@@ -574,7 +612,8 @@ class Oracle(object):
         self.at = 0
         self.why = None
         if case["init"] is None:
-            init = info["mc_initial" if self.cls == "MC" else "bmp_initial"]
+            key = "mc_initial" if self.cls == "MC" else "bmp_initial"
+            init = info[key] if info.get(key) is not None else DEFAULT_INITIAL[key]
         else:
             init = case["init"]
         self.stack = [dict((k, v) for k, v in init)]
@@ -793,7 +832,7 @@ class Oracle(object):
                     self.check_bmp_call(op[1], op[2], op[3], e[2], e[3])
                 if e[3] is not None and op[4] and not e[2]:
                     raise Unwind()
-            elif k in ("with", "app"):
+            elif k in ("with", "app", "withcb"):
                 if k == "app":
                     try:
                         res = self.resolve("application", op[1], op[2])
@@ -838,8 +877,13 @@ class Oracle(object):
                                       "(expected exactly one stop)" % (app, st[1]))
                         elif sends[0][2:5] != [255, 255, 0] or sends[0][7] & 0xff != app:
                             self.fail("app-stop", "leaving application block %r: stop command %r" % (app, sends[0]))
+                    if len(op) > 4 and op[4] and st[1] and st[2] not in INTERRUPTS:
+                        self.fail("events", "the interrupt raised while the stop command was sent did not travel "
+                                  "outward (%r)" % (st[2],))
                     if st[2] is not None:
                         unwinding = True
+                if k == "withcb":
+                    unwinding = True          # the exit callback raises
                 self.stack.pop()
                 ex = self.next_event("stack")
                 if ex[1] != "exit" or json.dumps(ex[2]) != json.dumps(ent[2]):
@@ -941,6 +985,11 @@ def run(chk, args):
         return
     n_methods = sum(len(v) for v in sigs.values())
     missing = [m for m in sigs["MC"] if m not in MC_ROLES and m != "application"]
+    for key in ("mc_initial", "bmp_initial"):
+        if info.get(key) is None:
+            chk.oblige("constructor-default:" + key, False,
+                       "the default of initial_context is no longer a dictionary in the signature; the search goes on "
+                       "with the documented default %r" % (DEFAULT_INITIAL[key],))
     chk.oblige("oracle-covers-every-decorated-method (%d methods)" % n_methods, not missing,
                "no independent role description for: %s" % missing)
     if missing:
@@ -1049,7 +1098,9 @@ def run(chk, args):
         "random histories over MachineController (discovered connections on random SpiNN-5 geometries, or none) "
         "and BMPController (random (c,f)/(c,f,b) connection sets): nested with-blocks setting subsets of the "
         "contextual names -- anonymous or kept in a variable and re-entered, also while still active --, application "
-        "blocks, update_current_context, raise / try, a real discover_connections() run on a simulated machine with "
+        "blocks (also with the connection raising KeyboardInterrupt / SystemExit / another BaseException while the "
+        "exit's stop command is sent), blocks whose exit callback raises, controllers built with the default, an "
+        "empty or a partial explicit initial_context, update_current_context, raise / try, a real discover_connections() run on a simulated machine with "
         "failing probes followed by commands to every board's Ethernet chip and neighbours, and calls of every decorated "
         "method with each argument passed positionally / by keyword / via context / by default / left out, plus "
         "unexpected-keyword, multiple-values and too-many-positional shapes; every method is called in every round "
